@@ -4,6 +4,7 @@
 package core
 
 import (
+	"encoding/json"
 	"fmt"
 	"math"
 	"os"
@@ -124,8 +125,43 @@ func (c *Ctx) SigB(b []byte)  { c.Sig(rng.HashString(string(b))) }
 // Sample proposes a written-out description of this case for the evidence file.
 func (c *Ctx) Sample(v interface{}) {
 	if c.sample == nil {
-		c.sample = v
+		c.sample = jsonSafe(v)
 	}
+}
+
+// jsonSafe replaces the floats JSON cannot hold (NaN, infinities) by their names, recursively through the maps and
+// slices samples are made of.
+func jsonSafe(v interface{}) interface{} {
+	switch x := v.(type) {
+	case float64:
+		if math.IsNaN(x) || math.IsInf(x, 0) {
+			return fmt.Sprint(x)
+		}
+		return x
+	case []float64:
+		out := make([]interface{}, len(x))
+		for i, f := range x {
+			out[i] = jsonSafe(f)
+		}
+		return out
+	case []interface{}:
+		out := make([]interface{}, len(x))
+		for i, e := range x {
+			out[i] = jsonSafe(e)
+		}
+		return out
+	case map[string]interface{}:
+		out := make(map[string]interface{}, len(x))
+		for k, e := range x {
+			out[k] = jsonSafe(e)
+		}
+		return out
+	}
+	// anything else (structs of the monitors): round-trip check, fall back to its printed form
+	if _, err := json.Marshal(v); err != nil {
+		return fmt.Sprintf("%+v", v)
+	}
+	return v
 }
 
 // Prop is one registered property check.
